@@ -40,6 +40,8 @@ HEADERS = """
 #include <unifex/via.hpp>
 #include <unifex/when_all.hpp>
 #include <unifex/when_any.hpp>
+#include <unifex/when_all_range.hpp>
+#include <unifex/variant_sender.hpp>
 #include <unifex/with_query_value.hpp>
 #include <unifex/filter_stream.hpp>
 #include <unifex/for_each.hpp>
@@ -60,6 +62,9 @@ UNARY = [("then", 5), ("upon_error", 2), ("upon_done", 2), ("let_value", 5), ("l
 NARY = [("sequence", 4), ("when_all", 6), ("stop_when", 5), ("when_any", 2)]
 VAL_ONLY = [("materialize_c", 2), ("dao_c", 2), ("into_variant_c", 1)]
 VOID_ONLY = [("repeat_effect_until", 2)]
+# operators that only the *extension programs* use (separate random stream, see extension_programs()): the main
+# programs of a seed are unchanged by their existence
+EXT_NARY = [("when_all_range", 8), ("variant_sender", 6)]
 
 
 LVALUE_OK = {"then", "upon_error", "upon_done", "with_query", "unstoppable", "demat", "sequence", "finally", "via"}
@@ -76,7 +81,8 @@ def pick(rng, table):
 
 
 class Gen:
-    def __init__(self, rng, max_depth=3, max_leaves=5, ops=None):
+    def __init__(self, rng, max_depth=3, max_leaves=5, ops=None, ext=False):
+        self.ext = ext
         self.rng = rng
         self.max_depth = max_depth
         self.max_leaves = max_leaves
@@ -161,6 +167,8 @@ class Gen:
             return self.terminal(vt)
         table = list(UNARY) + list(NARY) + (VAL_ONLY if vt == "val" else VOID_ONLY)
         table = self.allowed(table) or table
+        if self.ext:
+            table = table + EXT_NARY
         if self.in_loop:
             # retry_when / repeat_effect_until connect their source as an lvalue, which only some
             # adaptors support: stay within a set known to be lvalue-connectable
@@ -240,6 +248,10 @@ class Gen:
             for k2 in kids:
                 k2.pop("mv", None)   # when_any needs the first sender's value tuple constructible from every other's
             return {"op": "when_any", "kids": kids}
+        if k == "when_all_range":
+            return self.when_all_range(vt)
+        if k == "variant_sender":
+            return self.variant_sender(vt, d)
         if k == "stop_when":
             # debug builds wrap receivers in try/catch->set_error(exception_ptr), which
             # stop_when's result variant cannot hold when the source declares no errors
@@ -263,11 +275,41 @@ class Gen:
         raise AssertionError(k)
 
 
+def _gen_when_all_range(self, vt):
+    """when_all_range(std::vector<Leaf>): 0-3 leaves of one type (the vector's element type), result vector<val>"""
+    n = self.rng.choice([0, 1, 2, 2, 3, 3])
+    n = min(n, max(0, self.max_leaves - self.n_leaf))
+    proto = self.leaf("val")
+    self.n_leaf -= 1
+    kids = []
+    for _ in range(n):
+        k = dict(proto)
+        k["id"] = self.leaf_id()
+        kids.append(k)
+    proto["id"] = 0
+    w = {"op": "when_all_range", "kids": kids, "proto": proto}
+    return {"op": "then", "kid": w, "fn": self.fn_id(), "ret": vt}
+
+
+def _gen_variant_sender(self, vt, d):
+    """variant_sender<A, B> holding A or B; B is a bare just_done()/just_error() so that the two alternatives (and
+    their operation types) are certainly different types"""
+    a = self.expr(vt, d)
+    if a["op"] in ("just_done", "just_error"):
+        a = {"op": "then", "kid": a, "fn": self.fn_id(), "ret": vt}
+    b = {"op": "just_done"} if self.rng.random() < 0.5 else {"op": "just_error", "eid": self.val_id()}
+    return {"op": "variant_sender", "alts": [a, b], "active": 0 if self.rng.random() < 0.7 else 1}
+
+
+Gen.when_all_range = _gen_when_all_range
+Gen.variant_sender = _gen_variant_sender
+
+
 def may_have_empty_errors(s):
     """conservative: False only when the sender certainly declares exception_ptr errors"""
     op = s["op"]
     if op in ("leaf", "then", "upon_error", "upon_done", "let_value", "let_error", "let_done",
-              "finally", "via", "when_all", "when_any", "just_from", "defer", "retry_when", "just_error", "any_sender"):
+              "finally", "via", "when_all", "when_any", "when_all_range", "just_from", "defer", "retry_when", "just_error", "any_sender"):
         return False
     if op in ("unstoppable", "with_query", "allocate", "lvw_stop_source", "lvw_stop_token",
               "let_value_with", "stop_when"):
@@ -339,6 +381,15 @@ def cpp(s):
         return U + "when_all(%s)" % ", ".join(cpp(k) for k in s["kids"])
     if op == "when_any":
         return U + "when_any(%s)" % ", ".join(cpp(k) for k in s["kids"])
+    if op == "when_all_range":
+        lt = cpp(s["proto"]).rsplit("{", 1)[0]
+        return "[] { using L_ = %s; std::vector<L_> v_; v_.reserve(%d); %s return unifex::when_all_range(std::move(v_)); }()" % (
+            lt, max(1, len(s["kids"])), " ".join("v_.emplace_back(%d);" % k["id"] for k in s["kids"]))
+    if op == "variant_sender":
+        a, b = s["alts"]
+        return ("[] { auto a_ = [] { return %s; }; auto b_ = [] { return %s; }; "
+                "using V_ = unifex::variant_sender<decltype(a_()), decltype(b_())>; return V_{%s_()}; }()" % (
+                    cpp(a), cpp(b), "ab"[s["active"]]))
     if op == "stop_when":
         return U + "stop_when(%s, %s)" % (cpp(s["kid"]), cpp(s["trigger"]))
     if op == "retry_when":
@@ -361,7 +412,7 @@ def cpp_stream(s):
     if k == "transform":
         return U + "transform_stream(%s, vf::fn(%d, vf::ret_val{}))" % (cpp_stream(s["src"]), s["fn"])
     if k == "filter":
-        return U + "filter_stream(%s, vf::fpred(%d, %du))" % (cpp_stream(s["src"]), s["fn"], s["mask"])
+        return U + "filter_stream(%s, vf::fpred%s(%d, %du))" % (cpp_stream(s["src"]), "_bv" if s.get("bv") else "", s["fn"], s["mask"])
     if k == "via_stream":
         return U + "via_stream(vf::msched{%d}, %s)" % (s["sched"], cpp_stream(s["src"]))
     if k == "type_erase":
@@ -380,6 +431,9 @@ def walk(s):
             yield from walk(s[k])
     for k in s.get("kids", []):
         yield from walk(k)
+    if "alts" in s:
+        # only the active alternative of a variant_sender is ever connected
+        yield from walk(s["alts"][s["active"]])
 
 
 def leaves(s):
@@ -436,6 +490,26 @@ def generate(seed, n, max_depth=3, max_leaves=5, ops=None):
         out.append((i + 1, spec, tok, False))
     if ops is None:
         out.extend(corner_programs(seed))
+        out.extend(extension_programs(seed, max(6, n // 5), max_depth, max_leaves))
+    return out
+
+
+def extension_programs(seed, n, max_depth=3, max_leaves=5):
+    """programs over the grammar extended by when_all_range and variant_sender, drawn from their own random stream (the
+    programs 1..n of a seed stay what they were before these operators were added); every program contains at least one
+    of the two"""
+    rng = random.Random(seed * 7717 + 5)
+    g = Gen(rng, max_depth, max_leaves, None, ext=True)
+    out = []
+    tries = 0
+    while len(out) < n and tries < 400:
+        tries += 1
+        spec = g.program()
+        if not has_op(spec, ("when_all_range", "variant_sender")):
+            continue
+        r = rng.random()
+        tok = 0 if r < 0.5 else (1 if r < 0.85 else 2)
+        out.append((951 + len(out), spec, tok, False))
     return out
 
 
